@@ -647,7 +647,7 @@ impl LineBuffer {
         } else {
             return None;
         };
-        let start = self.buf[..self.pos].rfind('\n').unwrap_or(0);
+        let start = self.buf[..self.pos].rfind('\n').map_or(0, |off| off + 1);
         for _ in 0..n {
             if let Some(off) = self.buf[end..].find('\n') {
                 end = end + off + 1;
